@@ -7,4 +7,6 @@ require (
 	golang.org/x/sys v0.11.0
 )
 
+require github.com/HdrHistogram/hdrhistogram-go v1.1.2 // indirect
+
 replace github.com/talostrading/sonic => /repo
